@@ -63,6 +63,9 @@ def main():
         rep.fail("tabulator", "%s|unsupported|%s" % (prop, str(e)[:80]), None, "the abstract interpreter met a construct it does not model (fail closed): %s" % e,
                  detail=traceback.format_exc())
         explanation = "unsupported construct"
+    except Exception as e:  # a crash of the rule layer must never look like a pass
+        rep.fail("internal", "%s|internal-error|%s" % (prop, type(e).__name__), None, "the rule layer failed (fail closed): %s: %s" % (type(e).__name__, e), detail=traceback.format_exc())
+        explanation = "internal error"
     rc = core.finish(rep, tier, t0, explanation=explanation.strip())
     sys.exit(rc)
 
